@@ -253,7 +253,7 @@ pub fn dump_tab<T: ElemT>(m: &Tab<T>) -> String {
             }
             None => s.push_str(" a=-"),
         }
-        s.push_str(" sing=0 salt=0 BIG");
+        let _ = write!(s, " sing=0 salt=0 cap={} BIG", m.capacity());
         return s;
     }
     let _ = write!(s, "m={} i={} g={} c={} s=", d.bucket_mask, d.items, d.growth_left, hex(&d.ctrl));
@@ -293,7 +293,7 @@ pub fn dump_tab<T: ElemT>(m: &Tab<T>) -> String {
         }
         None => s.push_str(" a=-"),
     }
-    let _ = write!(s, " sing={}", d.singleton as u8);
+    let _ = write!(s, " sing={} cap={}", d.singleton as u8, m.capacity());
     // address tie (Model/Addr.v): first and last element slot relative to the block start; for a
     // zero-sized T the (absolute) dangling address Bucket::as_ptr returns
     if let (true, Some((_sz, _al, off))) = (d.bucket_mask != 0, d.alloc) {
